@@ -51,7 +51,10 @@ def criteria_giles(alpha: float, ml: np.array, rmse: float) -> bool:
     :param rmse: root-mean square error
     :return: true if the convergence criteria has been met
     """
-    rem = max(ml[-1], ml[-2] / 2**alpha, ml[-3] / 2 ** (2 * alpha)) / (2**alpha - 1)
+    # the last three levels, or as many as there are (a run started at initial_level < 2 reaches its first test with fewer)
+    rem = max(ml[-1 - k] / 2 ** (k * alpha) for k in range(min(3, len(ml)))) / (
+        2**alpha - 1
+    )
     return rem <= np.sqrt(THETA) * rmse
 
 
